@@ -1,5 +1,6 @@
 //! wtv: conformance harness for the wtransport TLA+ specification suite.
 mod codec;
+mod e2e;
 mod gen;
 mod sansio;
 mod sio;
@@ -54,6 +55,14 @@ fn main() {
             let mut t = trace::Tracer::create(&out);
             sansio::suite_adm(&mut t, tier, seed);
             println!("events={}", t.finish());
+        }
+        "e2e" => {
+            let scn = arg(&args, "--scenarios").expect("--scenarios FILE");
+            let threads: usize = arg(&args, "--threads")
+                .and_then(|s| s.parse().ok())
+                .unwrap_or(2);
+            let n = e2e::run_file(&scn, &out, threads);
+            println!("events={n}");
         }
         other => {
             eprintln!("unknown suite {other}");
